@@ -34,6 +34,14 @@ EXPRS = [
     'every $n in (1, 2) satisfies $n > 0', '$lst', 'reverse($lst)', 'remove($lst, 1)', 'insert-before($lst, 1, $n)', 'sum($lst)', '$lst[2]',
     "compare('a', 'b')", "distinct-values(('a', 'A', 'a'))", "contains('abc', 'b')", "sort(('b', 'a', 'c'))", "$s || '-' || $n",
     'string-join(//b/@id, ",")', 'tokenize($s, "-")', 'upper-case($s)', '$dec * 2', '$dec idiv 1', 'round($dec)',
+    'adjust-dateTime-to-timezone($d2, ())', 'adjust-dateTime-to-timezone($d2)', 'adjust-date-to-timezone($dt2, ())',
+    'adjust-time-to-timezone($t2, ())', "adjust-dateTime-to-timezone($d2, xs:dayTimeDuration('PT5H'))",
+    "adjust-date-to-timezone($dt2, xs:dayTimeDuration('PT5H'))", "adjust-time-to-timezone($t2, xs:dayTimeDuration('-PT3H'))",
+    'let $v := $d2 return (adjust-dateTime-to-timezone($v, ()), $v)', 'timezone-from-dateTime($d2)', 'string($d2)',
+    "$f('p', ?)('q')", "($f('p', ?)('q'), $f('p', 'q'))", 'function-arity($f)', "$f('p', 'q')",
+    "let $g := function($a, $b) { ($a, $b) } return ($g(1, ?)(2), $g(1, 2))", "let $h := $f(?, 'z') return ($h('y'), $f('y', 'z'))",
+    "for-each(('a', 'b'), $f(?, '!'))", "$arr?2", 'array:append($arr, 9)?*', 'array:put($arr, 1, $n)?1', 'array:size($arr)',
+    "array:insert-before($arr, 1, 0)?1", "array:remove($arr, 1)?1", "map:put($m, 'k', $n)?k", "map:remove($m, 'a')?b", "map:size($m)", "$m?a",
     'count(//b) + $n', 'if ($n > 4) then //b[1] else //b[2]', '(//b | //c)', '(//b except //b[1])', 'root(.)', 'path((//b)[2])',
 ]
 OPS = ['select', 'iter', 'iter-abandon', 'evaluate']
@@ -77,6 +85,14 @@ def make_vars():
     v2 = {'n': 9, 's': 'q', 'dec': Decimal('-0.5'), 'lst': [4],
           'd': DateTime10.fromstring('2010-06-15T23:30:00'), 'd2': DateTime10.fromstring('2010-06-15T23:30:00+02:00'),
           't': Time.fromstring('23:59:59'), 'dt': Date10.fromstring('2010-06-15'), 'dt2': Date10.fromstring('2010-06-16')}
+    from elementpath import XPathContext
+    from elementpath.xpath31 import XPath31Parser
+    p = XPath31Parser()
+    for v, tz in ((v1, '10:00:00+01:00'), (v2, '23:59:59-05:00')):
+        v['t2'] = Time.fromstring(tz)
+        v['f'] = p.parse('function($a, $b) { concat($a, "-", $b) }').evaluate(XPathContext(root=None, item=1))
+        v['arr'] = p.parse('[1, (2, 3), "x"]').evaluate(XPathContext(root=None, item=1))
+        v['m'] = p.parse('map{"a": 1, "b": (2, 3)}').evaluate(XPathContext(root=None, item=1))
     return [v1, v2]
 
 
@@ -84,6 +100,12 @@ def snap_value(v):
     if isinstance(v, list):
         return ('list', tuple(snap_value(x) for x in v))
     tz = getattr(v, 'tzinfo', 'n/a')
+    if hasattr(v, 'arity') and hasattr(v, 'label'):
+        return ('function', str(v.label), v.arity, repr(getattr(v, 'nargs', None)), len(v))
+    if type(v).__name__ == 'XPathArray':
+        return ('array', repr([repr(x) for x in v.items()]))
+    if type(v).__name__ == 'XPathMap':
+        return ('map', repr(sorted((repr(k), repr(x)) for k, x in v.items())))
     return (type(v).__name__, repr(v), repr(tz), str(v))
 
 
@@ -252,7 +274,7 @@ def run_hist(expr, ver, depth, acc):
 
 
 def family(expr):
-    for key, fam in (('$d', 'dateTime-variable'), ('$t', 'time-variable'), ('map', 'map-array'), ('array', 'map-array'), ('[', 'path-or-array'),
+    for key, fam in (('$f', 'function-variable'), ('$arr', 'array-variable'), ('$m', 'map-variable'), ('adjust-', 'adjust-timezone'), ('$d', 'dateTime-variable'), ('$t', 'time-variable'), ('map', 'map-array'), ('array', 'map-array'), ('[', 'path-or-array'),
                      ('function', 'inline-function'), ('for ', 'for'), ('let ', 'let'), ('some ', 'quantified'), ('every ', 'quantified'),
                      ('$lst', 'list-variable')):
         if key in expr:
